@@ -32,6 +32,12 @@ abbrev R (α : Type) := Except Err α
 
 deriving instance DecidableEq for Except
 
+/-- a Rust `unwrap()` / panicking operator applied to a checked operation: any failure is a panic -/
+@[inline] def orPanic {α : Type} (r : R α) : R α :=
+  match r with
+  | .ok x => .ok x
+  | .error _ => .error .panic
+
 def U64_MAX  : Nat := 2^64 - 1
 def U128_MAX : Nat := 2^128 - 1
 def U256_MAX : Nat := 2^256 - 1
